@@ -205,6 +205,22 @@ fn first_diff(a: &str, b: &str) -> String {
     format!("lengths differ: reused {} lines vs fresh {} lines", a.lines().count(), b.lines().count())
 }
 
+/// A clone of a row is the row: same boundaries, CFA, argument size and every register rule
+/// (explicit `Undefined` rules included).
+fn row_clone_is_faithful<S: UnwindContextStorage<usize>>(ctx: &mut Ctx<'_>, row: &gimli::UnwindTableRow<usize, S>) -> gimli::UnwindTableRow<usize, S> {
+    let c = row.clone();
+    let desc = |r: &gimli::UnwindTableRow<usize, S>| {
+        let mut v: Vec<String> = r.registers().map(|(reg, rule)| format!("{}={:?}", reg.0, rule)).collect();
+        v.sort();
+        format!("{:#x}..{:#x} {:?} {} [{}]", r.start_address(), r.end_address(), r.cfa(), r.saved_args_size(), v.join(","))
+    };
+    let (a, b) = (desc(row), desc(&c));
+    if a != b {
+        ctx.violate("c20_clone", format!("a clone of the row `{}` is `{}`", a, b));
+    }
+    c
+}
+
 fn uctx_step<'a, S: UnwindContextStorage<usize>>(
     ctx: &mut Ctx<'_>,
     eh: &EhFrame<FR<'a>>,
@@ -235,7 +251,7 @@ fn uctx_step<'a, S: UnwindContextStorage<usize>>(
                         }
                         match table.next_row() {
                             Ok(Some(row)) => {
-                                let row = row.clone();
+                                let row = row_clone_is_faithful(ctx, row);
                                 log_row(ctx, &row);
                                 k += 1;
                             }
